@@ -15,7 +15,9 @@ from the history, plus the implementation's previous answer (the state `filter_s
 namespace Bpp.Drive.C20
 open Bpp Bpp.Proto
 
-def U : Nat := 128
+def U : Nat := 176
+/-- cell `p` of the specification vectors stands for the script integer `p - OFF` -/
+def OFF : Int := 64
 
 /-- how script integers are read into / printed from a coordinate type
 (`static_cast<T>(long long) / scale` and `(long long)(v * scale)` in the harness) -/
@@ -43,7 +45,7 @@ structure St (α : Type) where
   implMr : Array (List (Range α)) := Array.replicate 4 []
 
 def cellIn (sc : Nat) (r : Range α) (p : Nat) : Bool :=
-  decide (r.b ≤ Wire.ofScript (p : Int) sc) && decide ((Wire.ofScript (p : Int) sc : α) < r.e)
+  decide (r.b ≤ Wire.ofScript ((p : Int) - OFF) sc) && decide ((Wire.ofScript ((p : Int) - OFF) sc : α) < r.e)
 
 def showC (sc : Nat) (l : List α) : String := showInts (l.map (fun v => Wire.toScript v sc))
 
@@ -57,8 +59,8 @@ def parseRanges (sc : Nat) : List Int → Option (List (Range α))
 /-- The executable form of the invariant the theorems are about (`MultiRange.Inv`). -/
 def invOk : List (Range α) → Bool
   | [] => true
-  | [x] => decide (0 ≤ x.b) && decide (x.b < x.e)
-  | x :: y :: rest => decide (0 ≤ x.b) && decide (x.b < x.e) && decide (x.e ≤ y.b) && invOk (y :: rest)
+  | [x] => decide (x.b < x.e)
+  | x :: y :: rest => decide (x.b < x.e) && decide (x.e ≤ y.b) && invOk (y :: rest)
 
 def denotes (sc : Nat) (l : List (Range α)) (spec : Array Bool) : Bool :=
   (List.range U).all (fun p => (l.any (fun r => cellIn sc r p)) == spec[p]!)
@@ -72,11 +74,12 @@ def ascending : List α → Bool
   | a :: b :: rest => decide (a ≤ b) && ascending (b :: rest)
 
 /-- the full observation of a collection:
-`<getRange(i).begin end>* ; totalLength ; size isEmpty ; <getBounds / getSet>* ; toString` -/
+`<getRange(i).begin end>* ; totalLength ; size isEmpty ; <getBounds / getSet>* ; <cells owned
+twice, over all registers: 0 by theorem `copy_independent` (predicate `Sep`)> ; toString` -/
 def showColl (sc : Nat) (l : List (Range α)) : String :=
   showRanges sc l ++ " ; " ++ toString (RangeCollection.totalLength l) ++ " ; " ++
     toString (RangeCollection.size l) ++ " " ++ showBool (RangeCollection.isEmpty l) ++ " ; " ++
-    showRanges sc l ++ " ; " ++ RangeCollection.toString l
+    showRanges sc l ++ " ; 0 ; " ++ RangeCollection.toString l
 
 structure Obs (α : Type) where
   l : List (Range α)
@@ -84,26 +87,28 @@ structure Obs (α : Type) where
   size : Int
   empty : String
   bounds : List α
+  shared : Int
   str : List String
 
 def parseObs (sc : Nat) (t : List String) : Option (Obs α) :=
   match splitTok ";" t with
-  | bs :: [len] :: [size, empty] :: gb :: rest =>
-    match ints? bs, int? len, int? size, ints? gb with
-    | some bs, some len, some size, some gb =>
+  | bs :: [len] :: [size, empty] :: gb :: [sh] :: rest =>
+    match ints? bs, int? len, int? size, ints? gb, int? sh with
+    | some bs, some len, some size, some gb, some sh =>
       match parseRanges (α := α) sc bs with
       | some l => some { l := l, len := len, size := size, empty := empty,
-                         bounds := gb.map (fun v => Wire.ofScript v sc),
+                         bounds := gb.map (fun v => Wire.ofScript v sc), shared := sh,
                          str := (rest.intersperse [";"]).flatten }
       | none => none
-    | _, _, _, _ => none
+    | _, _, _, _, _ => none
   | _ => none
 
 /-- observers that must agree with each other on the implementation's own answer:
 `size`, `isEmpty`, `getBounds` / `getSet`, `toString` against `getRange` (theorems
 `collection_observers`, `bounds_sorted`; `toString` by the model's function) -/
 def obsVerdict (o : Obs α) (isMr : Bool) : Option String :=
-  if o.size != (o.l.length : Nat) then some "FAIL:size"
+  if o.shared != 0 then some "FAIL:copy_independent"
+  else if o.size != (o.l.length : Nat) then some "FAIL:size"
   else if o.empty != showBool (o.l.length == 0) then some "FAIL:isEmpty"
   else if o.bounds != MultiRange.getBounds o.l then some "FAIL:getBounds"
   else if isMr && !ascending o.bounds then some "FAIL:bounds_sorted"
